@@ -17,9 +17,10 @@ import (
 type fsNode struct {
 	name         string
 	isDir        bool
-	data         []Value // file content (byte terms)
-	vsize        int     // logical size when larger than len(data): the rest reads as zeros (sparse file)
-	mtime        Value   // time.Time value
+	data         []Value         // file content (byte terms)
+	vsize        int             // logical size when larger than len(data): the rest reads as zeros (sparse file)
+	patches      map[int][]Value // sparse file: bytes written at an offset beyond len(data)
+	mtime        Value           // time.Time value
 	mode         uint32
 	dirty        bool // written since last fsync (ghost)
 	entriesDirty bool // directory entries changed since last fsync of the directory (ghost)
